@@ -1,7 +1,179 @@
 import ScryerModel.Proofs.OpTable
-/-! # C43 (placeholder while the tie is being built) -/
+/-!
+# C43 — op/3 and current_op/3 maintain a consistent operator table
+
+Model: `Model/OpTable.lean`. `opStep t c` is `builtins.pl::op/3` clause by clause (validation in the
+order of the code, `'$op'/3` = `op_declaration`/`OpDecl::submit`/`OpDecl::remove`) with the two
+patches of findings C43-1 and C43-2 applied; `opStepImpl asIs` is the code as it is. `lookup t n c`
+is the visible operator table (priority-0 bookkeeping cells hidden), `currentOp t` what
+`current_op(P,T,N)` enumerates, `IsoErr t c e` the ISO 8.14.3.3 (+Cor.2) condition of error `e`.
+All theorems are for every table / every history of calls (`runOps`), with no bound on length.
+-/
 namespace Scryer.OpTable
 
-theorem C43_placeholder : opStep [] ⟨.var, .var, .one .var⟩ = ([], some .inst) := rfl
+/-- A rejected call leaves the table unchanged and raises an error whose ISO condition holds. -/
+theorem C43_rejected (t : Table) (c : Call) (e : Err) (h : (opStep t c).2 = some e) :
+    (opStep t c).1 = t ∧ IsoErr t c e := by
+  rcases opStep_spec t c with ⟨e', hr, hi⟩ | ⟨p, s, ns, _, hr⟩
+  · rw [hr] at h ⊢
+    cases h
+    exact ⟨rfl, hi⟩
+  · rw [hr] at h; cases h
+
+/-- A call is accepted exactly when none of the ISO error conditions holds. -/
+theorem C43_accepted_iff (t : Table) (c : Call) :
+    (opStep t c).2 = none ↔ ∀ e, ¬ IsoErr t c e := by
+  constructor
+  · intro h e
+    rcases opStep_spec t c with ⟨e', hr, _⟩ | ⟨p, s, ns, ha, _⟩
+    · rw [hr] at h; cases h
+    · exact accepted_no_isoErr ha e
+  · intro h
+    cases hr : (opStep t c).2 with
+    | none => rfl
+    | some e => exact absurd (C43_rejected t c e hr).2 (h e)
+
+/-- An accepted call `op(p, s, Names)` changes exactly the cells `(n, class of s)` for `n ∈ Names`:
+    they become `(p, s)`, or disappear when `p = 0`; every other cell is as before. -/
+theorem C43_accepted_effect (t : Table) (c : Call) (h : (opStep t c).2 = none) :
+    ∃ p s ns, checkPriority c.prio = .ok p ∧ checkSpec c.spec = .ok s ∧ opNames c.op = some ns ∧
+      ∀ m cl, lookup (opStep t c).1 m cl =
+        if m ∈ ns ∧ cl = s.cls then (if p = 0 then none else some (p, s)) else lookup t m cl := by
+  rcases opStep_spec t c with ⟨e', hr, _⟩ | ⟨p, s, ns, ha, hr⟩
+  · rw [hr] at h; cases h
+  · refine ⟨p, s, ns, ha.prio, ha.spec, ha.names, ?_⟩
+    intro m cl
+    rw [hr]
+    exact lookup_setAll t p s ns m cl
+
+/-- Priority 0 removes exactly the `(name, class)` cells named by the call. -/
+theorem C43_priority_zero_removes (t : Table) (c : Call) (h : (opStep t c).2 = none)
+    (h0 : c.prio = .int 0) :
+    ∃ s ns, checkSpec c.spec = .ok s ∧ opNames c.op = some ns ∧
+      ∀ m cl, lookup (opStep t c).1 m cl = if m ∈ ns ∧ cl = s.cls then none else lookup t m cl := by
+  obtain ⟨p, s, ns, hp, hs, hn, hl⟩ := C43_accepted_effect t c h
+  rw [h0] at hp
+  have : p = 0 := by
+    simp only [checkPriority] at hp
+    simpa using (Except.ok.inj hp).symm
+  subst this
+  exact ⟨s, ns, hs, hn, fun m cl => by rw [hl m cl]; simp⟩
+
+/-- `','`, `[]` and `{}` are never changed by any call, in any table. -/
+theorem C43_protected_names (t : Table) (c : Call) (n : String)
+    (hn : n = "," ∨ n = "[]" ∨ n = "{}") (cl : Cls) :
+    lookup (opStep t c).1 n cl = lookup t n cl := by
+  rcases opStep_spec t c with ⟨e', hr, _⟩ | ⟨p, s, ns, ha, hr⟩
+  · rw [hr]
+  · rw [hr]
+    apply accepted_protected ha
+    rcases hn with rfl | rfl | rfl <;> decide
+
+/-- One call preserves the invariants: unique keys, no name both infix and postfix, priorities in
+    1..1200 under the right class, `[]`/`{}` not operators, `'|'` at most infix with priority ≥ 1001. -/
+theorem C43_invariant_step (t : Table) (c : Call) (h : Inv t) : Inv (opStep t c).1 := by
+  rcases opStep_spec t c with ⟨e', hr, _⟩ | ⟨p, s, ns, ha, hr⟩
+  · rw [hr]; exact h
+  · rw [hr]; exact accepted_inv ha h
+
+theorem runOps_cons (t : Table) (c : Call) (cs : List Call) :
+    runOps t (c :: cs) = runOps (opStep t c).1 cs := rfl
+
+/-- The invariants hold after every history of calls, valid or invalid, from the default table. -/
+theorem C43_invariant_history (cs : List Call) : Inv (runOps defaultTable cs) := by
+  suffices ∀ t, Inv t → Inv (runOps t cs) from this _ default_inv
+  induction cs with
+  | nil => intro t h; exact h
+  | cons c cs ih => intro t h; rw [runOps_cons]; exact ih _ (C43_invariant_step t c h)
+
+/-- After every history `','` is still exactly `op(1000, xfy, ',')`. -/
+theorem C43_comma_history (cs : List Call) :
+    lookup (runOps defaultTable cs) "," .inf = some (1000, .xfy) ∧
+    lookup (runOps defaultTable cs) "," .pre = none ∧
+    lookup (runOps defaultTable cs) "," .post = none := by
+  have key : ∀ (t : Table) cl, lookup (runOps t cs) "," cl = lookup t "," cl := by
+    induction cs with
+    | nil => intro t cl; rfl
+    | cons c cs ih =>
+      intro t cl
+      rw [runOps_cons, ih, C43_protected_names t c "," (.inl rfl)]
+  rw [key, key, key]
+  decide
+
+/-- After every history, `current_op(P,T,N)` enumerates exactly the visible table. -/
+theorem C43_current_op_enumerates (cs : List Call) (p : Nat) (s : Spec) (n : String) :
+    (p, s, n) ∈ currentOp (runOps defaultTable cs) ↔
+      lookup (runOps defaultTable cs) n s.cls = some (p, s) :=
+  mem_currentOp_iff_lookup (C43_invariant_history cs).wf p s n
+
+/-- `current_op/3` with any subset of its arguments instantiated (the three branches of
+    `get_next_op_db_ref`, the bound-priority branch repaired as in finding C43-3) yields exactly
+    the matching rows of the full enumeration. -/
+theorem C43_current_op_modes (t : Table) (h : wf t) (q : Pat) (x : Nat × Spec × String) :
+    x ∈ currentOpQ true t q ↔ x ∈ currentOp t ∧ q.matches x = true :=
+  mem_currentOpQ h q x
+
+/-- `op/3` as written today computes the ISO step except on the inputs described by `Deviates`
+    (list form with `'|'` outside its restriction, or with an infix/postfix clash). -/
+theorem C43_code_as_written (t : Table) (c : Call) :
+    opStepImpl asIs t c = opStep t c ∨ Deviates t c :=
+  impl_eq_iso_or_deviates t c
+
+/-! ## Non-vacuity and witnesses -/
+
+def mk (p : Int) (s : String) (names : List String) : Call :=
+  match names with
+  | [] => ⟨.int p, .atom s, .one (.atom "[]")⟩
+  | n :: r => ⟨.int p, .atom s, .cons (.atom n) (r.map .atom) (.atom "[]")⟩
+
+def one (p : Int) (s : String) (n : String) : Call := ⟨.int p, .atom s, .one (.atom n)⟩
+
+-- accepted calls exist and change the table; removal works by class, not by specifier
+example : (opStep defaultTable (one 700 "xfx" "foo")).2 = none := by decide
+example : lookup (opStep defaultTable (one 700 "xfx" "foo")).1 "foo" .inf = some (700, .xfx) := by decide
+example : lookup (runOps defaultTable [one 700 "xfx" "foo", one 0 "yfx" "foo"]) "foo" .inf = none := by
+  decide
+-- every error exit is reached
+example : (opStep defaultTable ⟨.var, .atom "xfx", .one (.atom "foo")⟩).2 = some .inst := by decide
+example : (opStep defaultTable ⟨.atom "a", .atom "xfx", .one (.atom "foo")⟩).2 =
+    some (.typeInteger (.atom "a")) := by decide
+example : (opStep defaultTable ⟨.int 1, .int 1, .one (.atom "foo")⟩).2 = some (.typeAtom (.int 1)) := by
+  decide
+example : (opStep defaultTable ⟨.int 1, .atom "xfx", .one (.int 1)⟩).2 =
+    some (.typeList (.one (.int 1))) := by decide
+example : (opStep defaultTable (one 1201 "xfx" "foo")).2 = some (.domPriority 1201) := by decide
+example : (opStep defaultTable (one (-1) "xfx" "foo")).2 = some (.domPriority (-1)) := by decide
+example : (opStep defaultTable (one 1 "yfy" "foo")).2 = some (.domSpecifier "yfy") := by decide
+example : (opStep defaultTable (one 1000 "xfy" ",")).2 = some (.permModify ",") := by decide
+example : (opStep defaultTable (mk 0 "xfy" ["mod", ","])).2 = some (.permModify ",") := by decide
+example : (opStep defaultTable (one 200 "xfy" "[]")).2 = some (.permCreate "[]") := by decide
+example : (opStep defaultTable (one 200 "xfy" "{}")).2 = some (.permCreate "{}") := by decide
+example : (opStep defaultTable (one 1000 "xfy" "|")).2 = some (.permCreate "|") := by decide
+example : (opStep defaultTable (one 1001 "fy" "|")).2 = some (.permCreate "|") := by decide
+example : (opStep defaultTable (one 1001 "xfy" "|")).2 = none := by decide
+example : (opStep defaultTable (one 200 "xf" "+")).2 = some (.permCreate "+") := by decide
+example : (opStep defaultTable ⟨.int 1, .atom "xfx", .cons (.atom "foo") [] (.atom "bar")⟩).2 =
+    some (.typeList (.cons (.atom "foo") [] (.atom "bar"))) := by decide
+example : (opStep defaultTable ⟨.int 1, .atom "xfx", .cons (.atom "foo") [.var] (.atom "[]")⟩).2 =
+    some .inst := by decide
+
+-- finding C43-1: the code as written accepts op(200, xfy, ['|']) and breaks the '|' invariant …
+example : (opStepImpl asIs defaultTable (mk 200 "xfy" ["|"])).2 = none := by decide
+example : lookup (opStepImpl asIs defaultTable (mk 200 "xfy" ["|"])).1 "|" .inf = some (200, .xfy) := by
+  decide
+-- … the ISO step rejects it
+example : opStep defaultTable (mk 200 "xfy" ["|"]) = (defaultTable, some (.permCreate "|")) := by decide
+-- finding C43-2: op(200, xf, [foo, +]) is rejected by the code as written after foo was added
+example : (opStepImpl asIs defaultTable (mk 200 "xf" ["foo", "+"])).2 = some (.permCreate "+") := by decide
+example : lookup (opStepImpl asIs defaultTable (mk 200 "xf" ["foo", "+"])).1 "foo" .post =
+    some (200, .xf) := by decide
+example : opStep defaultTable (mk 200 "xf" ["foo", "+"]) = (defaultTable, some (.permCreate "+")) := by
+  decide
+-- both are instances of `Deviates`, so `C43_code_as_written` is not vacuous in either direction
+example : opStepImpl asIs defaultTable (one 200 "xf" "foo") = opStep defaultTable (one 200 "xf" "foo") := by
+  decide
+-- finding C43-3: with the priority bound and the specifier unbound the code finds nothing
+example : currentOpQ false defaultTable ⟨some 500, none, some "+"⟩ = [] := by decide
+example : currentOpQ true defaultTable ⟨some 500, none, some "+"⟩ = [(500, .yfx, "+")] := by decide
 
 end Scryer.OpTable
